@@ -87,7 +87,7 @@ theorem biE_err {α β : Type} {R : α → β → Prop} {e1 e2 : Err} :
 def Normal (c : Cfg) (b : Bytes) : Prop := ∀ x, b.slc[b.index]? = some x → c.isSep x = false
 
 theorem prefixPhase_none (c : Cfg) (h : c.basePrefix = 0) (b : Bytes) : prefixPhase c b = .ok (false, b) := by
-  simp [prefixPhase, h, pure, Except.pure]
+  simp [prefixPhase, prefixPhaseCurrent, prefixPhaseRepaired, h, pure, Except.pure]
 
 theorem advS_count (c : Cfg) (k : Comp) (di dc : Nat) (b : Bytes) (hf : c.feats.format = true) (hk : k ≠ .special) :
     (advS c k di dc b).ic + (advS c k di dc b).fc + (advS c k di dc b).ec = b.ic + b.fc + b.ec + dc := by
